@@ -155,6 +155,19 @@ func (c *VC) buildInputs(o *Obligation, dir string, qual types.Qualifier) (decls
 			} else {
 				reqs = append(reqs, rvReq{key, in.Term})
 			}
+		case *types.Pointer:
+			reqs = append(reqs, rvReq{key, in.Term})
+			if stt, ok := u.Elem().Underlying().(*types.Struct); ok {
+				ss := c.sortOf(u.Elem())
+				_, h := c.ptrHeap(st, ss)
+				obj := mkSelect(h, in.Term)
+				for fi := 0; fi < stt.NumFields(); fi++ {
+					ft := stt.Field(fi).Type()
+					if b, ok := ft.Underlying().(*types.Basic); ok && b.Info()&(types.IsInteger|types.IsBoolean) != 0 {
+						reqs = append(reqs, rvReq{fmt.Sprintf("%s.%s", key, stt.Field(fi).Name()), mkField(obj, ss.Fields[fi].Name)})
+					}
+				}
+			}
 		case *types.Slice:
 			reqs = append(reqs, rvReq{key + ".len", mkField(in.Term, "sl_len")}, rvReq{key + ".cap", mkField(in.Term, "sl_cap")}, rvReq{key + ".base", mkField(in.Term, "sl_base")})
 			small = append(small, c.cmp(tokLEQ, mkField(in.Term, "sl_len"), c.idxLit(40), it), c.cmp(tokLEQ, mkField(in.Term, "sl_cap"), c.idxLit(64), it))
@@ -273,6 +286,46 @@ func (c *VC) buildInputs(o *Obligation, dir string, qual types.Qualifier) (decls
 				decls = append(decls, fmt.Sprintf("var %s %s = %s(verifMk([]byte{%s}, %d, %d))", key, ts, ts, strings.Join(bs, ","), ln, cp))
 				shown[in.Name] = fmt.Sprintf("[]byte len=%d cap=%d bytes=[%s]", ln, cp, strings.Join(bs, " "))
 			}
+		case *types.Pointer:
+			stt, isStruct := u.Elem().Underlying().(*types.Struct)
+			addr, okA := num(key)
+			if !isStruct {
+				decls = append(decls, fmt.Sprintf("var %s %s", key, ts))
+				note += in.Name + ": input of this type is not reconstructed (zero value used); "
+				continue
+			}
+			if okA && addr.Sign() == 0 {
+				decls = append(decls, fmt.Sprintf("var %s %s // nil", key, ts))
+				shown[in.Name] = "nil"
+				continue
+			}
+			var fs []string
+			for fi := 0; fi < stt.NumFields(); fi++ {
+				f := stt.Field(fi)
+				b, ok := f.Type().Underlying().(*types.Basic)
+				if !ok || b.Info()&(types.IsInteger|types.IsBoolean) == 0 {
+					continue
+				}
+				fts := types.TypeString(f.Type(), qual)
+				if b.Info()&types.IsBoolean != 0 {
+					_, bv, _ := parseSMTValue(vals[fmt.Sprintf("%s.%s", key, f.Name())])
+					fs = append(fs, fmt.Sprintf("%s: %v", f.Name(), bv))
+					continue
+				}
+				v, ok := num(fmt.Sprintf("%s.%s", key, f.Name()))
+				if !ok {
+					v = big.NewInt(0)
+				}
+				w, signed, _ := intInfo(b)
+				v = new(big.Int).Mod(v, pow2(w))
+				if signed {
+					v = signedOf(v, w)
+				}
+				fs = append(fs, fmt.Sprintf("%s: %s(%s)", f.Name(), fts, v.String()))
+			}
+			es := types.TypeString(u.Elem(), qual)
+			decls = append(decls, fmt.Sprintf("var %s %s = &%s{%s}", key, ts, es, strings.Join(fs, ", ")))
+			shown[in.Name] = fmt.Sprintf("&%s{%s}", es, strings.Join(fs, ", "))
 		default:
 			decls = append(decls, fmt.Sprintf("var %s %s", key, ts))
 			note += in.Name + ": input of this type is not reconstructed (zero value used); "
@@ -380,7 +433,7 @@ func replayObligation(prog *Prog, c *VC, o *Obligation, dir, repo string) *repla
 						case id.Name == "requires":
 							sb.WriteString(nodeText(prog, s) + "\n")
 							continue
-						case id.Name == "ensures":
+						case id.Name == "ensures" || id.Name == "ensuresGoal":
 							if !onlyRequires && exprText(prog.fset, call.Args[0]) == clause {
 								sb.WriteString(nodeText(prog, s) + "\n")
 							}
@@ -439,7 +492,7 @@ func replayObligation(prog *Prog, c *VC, o *Obligation, dir, repo string) *repla
 		fmt.Fprintf(&body, "\t%s(%s)\n", closure(false), strings.Join(append(append([]string{}, names...), resNames...), ", "))
 	}
 	var src strings.Builder
-	src.WriteString("//go:build verif\n\npackage " + pkg.Types.Name() + "\n\nimport (\n\t\"fmt\"\n\t\"testing\"\n")
+	src.WriteString("//go:build verif\n\npackage " + pkg.Types.Name() + "\n\nimport (\n\t\"fmt\"\n\t\"strings\"\n\t\"testing\"\n")
 	needMath := false
 	for _, d := range decls {
 		if strings.Contains(d, "math.Float") {
@@ -462,7 +515,7 @@ func replayObligation(prog *Prog, c *VC, o *Obligation, dir, repo string) *repla
 	}
 	src.WriteString(")\n\nvar verifPhase string\n\n")
 	src.WriteString("func verifMk(bs []byte, n, c int) []byte {\n\tb := make([]byte, n, c)\n\tcopy(b, bs)\n\treturn b\n}\n\n")
-	src.WriteString("func verifPad(bs []byte, n int) []byte {\n\tb := make([]byte, n)\n\tcopy(b, bs)\n\treturn b\n}\n\nvar _ = verifPad\nvar _ = verifMk\n\n")
+	src.WriteString("func verifPad(bs []byte, n int) []byte {\n\tb := make([]byte, n)\n\tcopy(b, bs)\n\treturn b\n}\n\nvar _ = verifPad\nvar _ = verifMk\nvar _ = strings.HasPrefix\n\n")
 	src.WriteString("func TestVerifReplay(t *testing.T) {\n")
 	for _, d := range decls {
 		src.WriteString("\t" + d + "\n")
@@ -497,6 +550,8 @@ func replayObligation(prog *Prog, c *VC, o *Obligation, dir, repo string) *repla
 		rep.Note += "counterexample reproduced on the real code"
 	case strings.Contains(string(out), "VERIF-REPLAY-PRECONDITION"):
 		rep.Note += "model does not satisfy the precondition at run time (spurious model)"
+	case strings.Contains(string(out), "VERIF-REPLAY-SPECERROR"):
+		rep.Note += "the contract clause itself panicked when evaluated as Go on the model's inputs (not counted as a reproduction)"
 	case strings.Contains(string(out), "VERIF-REPLAY-HOLDS"):
 		rep.Note += "clause holds at run time for the model's inputs (model not reproducible: abstraction artefact or heap-only difference)"
 	default:
